@@ -15,6 +15,10 @@ pub enum Entry {
     SlicesDeadline,
     CaptureDeadline,
     CaptureSlicesDeadline,
+    /// TextDiff::configure().algorithm(a).deadline(instant).diff_slices(..)
+    TextConfigDeadline,
+    /// TextDiff::configure().algorithm(a).timeout(duration).diff_slices(..)
+    TextConfigTimeout,
 }
 impl Entry {
     fn name(&self) -> &'static str {
@@ -24,6 +28,8 @@ impl Entry {
             Entry::SlicesDeadline => "algorithms::diff_slices_deadline",
             Entry::CaptureDeadline => "capture_diff_deadline",
             Entry::CaptureSlicesDeadline => "capture_diff_slices_deadline",
+            Entry::TextConfigDeadline => "TextDiffConfig::deadline",
+            Entry::TextConfigTimeout => "TextDiffConfig::timeout",
         }
     }
     fn from(s: &str) -> Entry {
@@ -32,6 +38,8 @@ impl Entry {
             "<alg>::diff_deadline" => Entry::ModuleDeadline,
             "algorithms::diff_slices_deadline" => Entry::SlicesDeadline,
             "capture_diff_deadline" => Entry::CaptureDeadline,
+            "TextDiffConfig::deadline" => Entry::TextConfigDeadline,
+            "TextDiffConfig::timeout" => Entry::TextConfigTimeout,
             _ => Entry::CaptureSlicesDeadline,
         }
     }
@@ -39,7 +47,7 @@ impl Entry {
         matches!(self, Entry::AlgDiffDeadline | Entry::ModuleDeadline | Entry::SlicesDeadline)
     }
     fn slices_only(&self) -> bool {
-        matches!(self, Entry::SlicesDeadline | Entry::CaptureSlicesDeadline)
+        matches!(self, Entry::SlicesDeadline | Entry::CaptureSlicesDeadline | Entry::TextConfigDeadline | Entry::TextConfigTimeout)
     }
 }
 
@@ -84,6 +92,24 @@ fn run_entry(s: &Shape, inp: &Inputs, dl: Option<std::time::Instant>) -> Obs {
             (Seq::Slice(o), Seq::Slice(n)) => Obs::Ops(capture_diff_slices_deadline(s.alg, &o[..], &n[..], dl)),
             _ => unreachable!(),
         },
+        Entry::TextConfigDeadline | Entry::TextConfigTimeout => match (&inp.old, &inp.new) {
+            (Seq::Slice(o), Seq::Slice(n)) => {
+                use crate::symtxt::SymTxt;
+                let ot: Vec<&SymTxt> = (0..o.len()).map(|i| SymTxt::new(&o[i..i + 1])).collect();
+                let nt: Vec<&SymTxt> = (0..n.len()).map(|i| SymTxt::new(&n[i..i + 1])).collect();
+                let mut c = similar::TextDiff::configure();
+                c.algorithm(s.alg);
+                if let Some(d) = dl {
+                    if s.entry == Entry::TextConfigDeadline {
+                        c.deadline(d);
+                    } else {
+                        c.timeout(std::time::Duration::from_secs(3600));
+                    }
+                }
+                Obs::Ops(c.diff_slices(&ot, &nt).ops().to_vec())
+            }
+            _ => unreachable!(),
+        },
     }
 }
 
@@ -106,7 +132,7 @@ impl Prop for C07 {
                         Layout::Slice { pre_o: 1, post_o: 1, pre_n: 1, post_n: 0 },
                         Layout::Offset { off_o: 2, off_n: 1 },
                     ] {
-                        for entry in [Entry::AlgDiffDeadline, Entry::ModuleDeadline, Entry::SlicesDeadline, Entry::CaptureDeadline, Entry::CaptureSlicesDeadline] {
+                        for entry in [Entry::AlgDiffDeadline, Entry::ModuleDeadline, Entry::SlicesDeadline, Entry::CaptureDeadline, Entry::CaptureSlicesDeadline, Entry::TextConfigDeadline, Entry::TextConfigTimeout] {
                             if entry.slices_only() && !layout.is_plain() {
                                 continue;
                             }
@@ -217,9 +243,10 @@ impl Prop for C07 {
                 "similar::algorithms::patience::diff_deadline (+ Patience hook, unique)",
                 "similar::algorithms::lcs::{diff_deadline, make_table}",
                 "similar::{capture_diff_deadline, capture_diff_slices_deadline} (+ Compact, Replace, Capture)",
+                "similar::TextDiffConfig::{deadline, timeout, diff_slices, diff}, Deadline::into_instant, deadline_support::duration_to_deadline",
             ],
-            bounds: format!("3 algorithms x n,m in 0..={} x 3 layouts x 5 entry points; the clock is symbolic: one z3 Bool per deadline probe with a latch, so 'expired before the start', 'at probe k' for every reachable k, and 'never' are all explored; work bound after expiry: raw {}*(N+M)+{}, captured {}*(N+M)+{} comparisons (constants.json)", match tier { Tier::Quick => 4, Tier::Thorough => 5 }, konst("c07_raw_after_expiry_per_item"), konst("c07_raw_after_expiry_const"), konst("c07_captured_after_expiry_per_item"), konst("c07_captured_after_expiry_const")),
-            outside: "TextDiffConfig::deadline/timeout plumbing is decided with the text properties (C14 family); wall-clock behaviour of Instant::now itself; lengths beyond the bound (so the 'small constant multiple' is only bounded on small inputs)".into(),
+            bounds: format!("3 algorithms x n,m in 0..={} x 3 layouts x 7 entry points (incl. TextDiffConfig::deadline and ::timeout over one-character SymTxt tokens); the clock is symbolic: one z3 Bool per deadline probe with a latch, so 'expired before the start', 'at probe k' for every reachable k, and 'never' are all explored; work bound after expiry: raw {}*(N+M)+{}, captured {}*(N+M)+{} comparisons (constants.json)", match tier { Tier::Quick => 4, Tier::Thorough => 5 }, konst("c07_raw_after_expiry_per_item"), konst("c07_raw_after_expiry_const"), konst("c07_captured_after_expiry_per_item"), konst("c07_captured_after_expiry_const")),
+            outside: "wall-clock behaviour of Instant::now itself; lengths beyond the bound (so the 'small constant multiple' is only bounded on small inputs)".into(),
             assumptions: vec![
                 "H1 (cfg similar_verif): deadline_exceeded consults the installed oracle instead of Instant::now() when a deadline is present".into(),
                 "time is monotone: once expired, stays expired (latch)".into(),
